@@ -538,7 +538,7 @@ def run_instance(inst, tier='quick', seed=0, replay_dir=None, prefix=None, first
     # verdict does not flip to `undecided` because other jobs share the cores
     scale = float(os.environ.get('VERIF_TIME_SCALE', '1') or 1)
     timeout = inst.timeout * (4.0 if tier == 'thorough' else 1.0) * scale
-    budget_total = inst.budget * scale if inst.budget else max(90.0, 6.0 * timeout)     # solver seconds per instance (shard)
+    budget_total = inst.budget * scale if inst.budget else max(240.0, 8.0 * timeout) * scale     # solver seconds per instance (shard)
     patches = inst.patches() if inst.patches else []
     holder = {}
 
